@@ -170,13 +170,43 @@ theorem xonPacket_other (x : ExtF) (chan : Nat) (data : Bytes) (h : chan ≠ 3) 
   have : chan ≠ Gen.C03.miscChannel := h
   simp [ExtF.onPacket, this]
 
+theorem xonPacket_cmd2 (x : ExtF) (rest : Bytes) (ha : x.active = true) :
+    x.onPacket 3 (2 :: rest) = x.onExtReply (2 :: rest) := by
+  unfold ExtF.onPacket
+  have h1 : ¬ (3 ≠ Gen.C03.miscChannel) := by decide
+  have h2 : ¬ ((2 : UInt8).toNat ≠ Gen.C03.miscGetExtendedType) := by decide
+  simp only [ha, not_true_eq_false, h1, if_false, h2]
+
+/-- fix D29: a misc packet that is not an extended-type answer (value-updated notification, other misc replies,
+an empty packet whose IndexError the dispatcher swallows) never changes the fetcher -/
+theorem xonPacket_notext (x : ExtF) (data : Bytes) (h : data.head? ≠ some 2) :
+    x.onPacket 3 data = .ok x ∨ ∃ e, x.onPacket 3 data = .error e := by
+  cases ha : x.active
+  · exact Or.inl (xonPacket_inactive x _ _ ha)
+  · unfold ExtF.onPacket
+    have h1 : ¬ (3 ≠ Gen.C03.miscChannel) := by decide
+    simp only [ha, not_true_eq_false, h1, if_false]
+    cases data with
+    | nil => exact Or.inr ⟨_, rfl⟩
+    | cons c rest =>
+      have hc : c ≠ 2 := fun hh => h (by simp [hh])
+      have : c.toNat ≠ Gen.C03.miscGetExtendedType := by
+        intro hh
+        apply hc
+        have : c.toNat = (2 : UInt8).toNat := hh
+        exact UInt8.toNat_inj.mp this
+      left
+      simp only [this, ne_eq, not_false_eq_true, if_true]
+
 theorem xonPacket_stale (x : ExtF) (pers : Nat → Bool) (j : Nat) (hj : j < 65536) (h : x.reqParam ≠ some j) :
     x.onPacket 3 (xrep pers j) = .ok x := by
   cases ha : x.active
   · exact xonPacket_inactive x _ _ ha
-  · unfold ExtF.onPacket
-    have : ¬ (3 ≠ Gen.C03.miscChannel) := by decide
-    simp only [ha, not_true_eq_false, this, if_false, xrep_id pers j hj]
+  · show x.onPacket 3 (2 :: [UInt8.ofNat (j % 256), UInt8.ofNat (j / 256), if pers j then 1 else 0]) = _
+    rw [xonPacket_cmd2 x _ ha]
+    show x.onExtReply (xrep pers j) = _
+    unfold ExtF.onExtReply
+    simp only [xrep_id pers j hj]
     simp [h]
 
 theorem xonPacket_awaited (x : ExtF) (pers : Nat → Bool) (j : Nat) (hj : j < 65536) (h : x.reqParam = some j)
@@ -187,9 +217,11 @@ theorem xonPacket_awaited (x : ExtF) (pers : Nat → Bool) (j : Nat) (hj : j < 6
                       queue := [], reqParam := none, locked := false, active := false }
            else { x with toc := if pers j then x.toc.markPersistent j else x.toc, count := x.count - 1,
                          reqParam := none, locked := false }) := by
-  unfold ExtF.onPacket
-  have : ¬ (3 ≠ Gen.C03.miscChannel) := by decide
-  simp only [ha, not_true_eq_false, this, if_false, xrep_id pers j hj]
+  show x.onPacket 3 (2 :: [UInt8.ofNat (j % 256), UInt8.ofNat (j / 256), if pers j then 1 else 0]) = _
+  rw [xonPacket_cmd2 x _ ha]
+  show x.onExtReply (xrep pers j) = _
+  unfold ExtF.onExtReply
+  simp only [xrep_id pers j hj]
   have hd : (xrep pers j).drop 3 = [if pers j then 1 else 0] := rfl
   simp only [Int.toNat_natCast, h, if_true, hd]
   cases hp : pers j
@@ -292,6 +324,15 @@ theorem xstep_inv (s : XSys) (hi : XInv E toc0 pers s) (c : XChoice) : XInv E to
         split <;> first | rfl | (rename_i h; cases h; done) | simp_all
       rw [hw]
       exact XInv.busy _ k hk htoc hcount hdone hpool hreq hlock hq hin hact
+  | misc data =>
+    simp only [XSys.step]
+    split
+    · exact hi
+    · rename_i h
+      have hs : s.deliver 3 data = s := by
+        unfold XSys.deliver
+        rcases xonPacket_notext s.x data h with h1 | ⟨e, h1⟩ <;> rw [h1]
+      rw [hs]; exact hi
   | disconnect =>
     simp only [XSys.step]
     cases hi with
